@@ -168,7 +168,7 @@ REC_ALPHA = [
 ]
 
 KEY_ALPHA = {
-    "string": ["", "a", "é"],
+    "string": ["", "a", "é", "1", "-07"],   # incl. keys that look like numbers
     "bool": [False, True],
 }
 
